@@ -264,7 +264,7 @@ def model_cases(cases, impl_lines):
         try:
             truth = truth_of(c)
             if line.startswith("CREATE-ERR") and "Duplicate contig name" in line:
-                out.append("dp " + " ".join(f"P {hx(s.encode())} {hx(n.encode())} -" for s, cs in truth for n, _ in cs))
+                out.append("dp " + " ".join(f"P {hx(s.encode())} {hx(n.encode())} - ." for s, cs in truth for n, _ in cs))
                 continue
             if not line.startswith("OK "):
                 out.append("NOTRACE")
@@ -394,4 +394,6 @@ def finding_class(case, impl, why):
             pass
     if "repeated contig name" in why:
         return "duplicate-contig-name"
+    if impl.startswith("PANIC Worker thread panicked") and case.split()[2].startswith("32,") and not case.endswith(",0"):
+        return "fallback-mask-shl-overflow-k32"
     return None
